@@ -57,8 +57,12 @@ def convAll (num : List (Str × Nat)) : List Ecal.Lex.Tok → Option (List LTok)
     | some a, some as => some (a :: as)
     | _, _ => none
 
+/-- `parser.next` skips comment tokens (they only become meta data of a node) -/
+def dropComments (l : List Ecal.Lex.Tok) : List Ecal.Lex.Tok :=
+  l.filter fun t => !(t.id == Ecal.Lex.tPRECOMMENT || t.id == Ecal.Lex.tPOSTCOMMENT)
+
 /-- the token list of a source text (`none`: the float bits of a NUMBER text were not supplied) -/
 def lexTokens (num : List (Str × Nat)) (src : List Nat) : Option (List LTok) :=
-  convAll num (Ecal.Lex.lex src).toList
+  convAll num (dropComments (Ecal.Lex.lex src).toList)
 
 end Ecal.Expr
